@@ -137,8 +137,24 @@ Lemma f10_witness :
   fst (res_used f10_history f10_probe false true) <> fst (res_fresh f10_history f10_probe false true).
 Proof. intro H. first [ solve [vm_compute in H; discriminate H] | vm_compute; intro E; discriminate E ]. Qed.
 
-Lemma f10_fixed : decodeyuv_resets_lossless = true -> forall m, ok_probe faithful [KDecodeYUV m] = true.
-Proof. intros H m. first [ solve [vm_compute in H; discriminate H] | destruct m; vm_compute; reflexivity ]. Qed.
+Lemma f10_fixed :
+  decodeyuv_resets_lossless = true -> decodeyuv_resets_marker_flags = true -> forall m, ok_probe faithful [KDecodeYUV m] = true.
+Proof.
+  intros H H' m.
+  first [ solve [vm_compute in H; discriminate H] | solve [vm_compute in H'; discriminate H'] | destruct m; vm_compute; reflexivity ].
+Qed.
+
+(* F12: header of an RGB JPEG with an Adobe marker (transform 0, no JFIF marker), then tj3DecodeYUV8:
+   default_decompress_parms takes the planes for RGB *)
+Definition f12_history : list call :=
+  [cl (KHeader true) [("img", 19); ("adobe", 1); ("adobe_tr", 0); ("jfif", 0); ("jw", 32); ("jh", 32); ("jprec", 8); ("ncomp", 3)];
+   cl KSet [("param", 4); ("value", 0)]].
+Definition f12_probe : list call := [cl (KDecodeYUV false) [("img", 98)]].
+
+Lemma f12_witness :
+  decodeyuv_resets_marker_flags = false ->
+  fst (res_used f12_history f12_probe false true) <> fst (res_fresh f12_history f12_probe false true).
+Proof. intro H. first [ solve [vm_compute in H; discriminate H] | vm_compute; intro E; discriminate E ]. Qed.
 
 (* F11: a 12-bit compression, then a lossless transform of an 8-bit JPEG on the same instance *)
 Definition f11_history : list call :=
@@ -157,7 +173,7 @@ Proof. intro H. first [ solve [vm_compute in H; discriminate H] | vm_compute; re
 
 (* the witness histories consist of calls that are fine as history calls *)
 Lemma witness_histories_ok :
-  Forall (fun c => ok_hist faithful (c_kind c) = true) (f5_history ++ f9_history ++ f10_history ++ f11_history).
+  Forall (fun c => ok_hist faithful (c_kind c) = true) (f5_history ++ f9_history ++ f10_history ++ f11_history ++ f12_history).
 Proof. repeat constructor; vm_compute; reflexivity. Qed.
 
 (* F1 / F2 regressions: the fixed source is what the generated data must show *)
@@ -176,7 +192,7 @@ Definition f2_history : list call :=
    cl (KCompress B8) [("img", 2); ("w", 128); ("h", 96); ("bufmode", 1); ("grow", 1)]].
 Lemma f2_regression_lemma :
   d_doublefree (xd (run faithful f2_history (init_x true false))) = negb dest_forgets_newbuffer /\
-  d_doublefree (xd (run (mkfix true true true true false) f2_history (init_x true false))) = true /\
+  d_doublefree (xd (run (mkfix true true true true false true) f2_history (init_x true false))) = true /\
   d_doublefree (xd (run all_fixed f2_history (init_x true false))) = false.
 Proof. vm_compute. auto. Qed.
 
